@@ -23,12 +23,32 @@ def _neg_(c):
     return c
 
 
+def _effective(ctx, ex, varied, results, label):
+    """vacuity guard for keyword values: a value of `varied` is EFFECTIVE if it changes the specified result of
+    at least one exported case (same trains, same other keywords) with respect to the value 0; a run whose
+    non-zero values are all ineffective exercises the keyword plumbing but nothing it could break"""
+    from common import fr
+    groups = {}
+    for r in ex:
+        key = repr([r[k] for k in ("a", "b", "ts", "te", "mrts", "mtau", "ri") if k in r and k != varied])
+        groups.setdefault(key, {})[str(fr(r[varied]))] = repr([r.get(k) for k in results])
+    vals = sorted({v for g in groups.values() for v in g}, key=lambda v: float(fr(v)) if "/" not in v else float(int(v.split("/")[0])) / int(v.split("/")[1]))
+    if len(vals) < 2:
+        return
+    base = "0" if "0" in vals else vals[0]
+    eff = sorted({v for g in groups.values() for v in g if v != base and base in g and g[v] != g[base]})
+    note = ctx.notes.setdefault("effective_keyword_values", {})
+    note["%s/%s" % (label, varied)] = {"values": vals, "change_some_result": eff}
+    if not eff:
+        raise MachineryError("vacuous keyword: no value of %s in %s changes any specified result of %s" % (varied, vals, label))
+
+
 def c01(ctx):
     """ISI-profile equals the definition"""
     if ctx.tier == QUICK:
         cfgs = [dict(TS=0, TE=5, MaxSp=6, MRTSQ=tla_set([0, 6, 16])),
                 dict(TS=3, TE=7, MaxSp=5, MRTSQ=tla_set([0, 2, 30])),
-                dict(TS=-3, TE=-1, MaxSp=3, MRTSQ=tla_set([0, 3])),
+                dict(TS=-3, TE=-1, MaxSp=3, MRTSQ=tla_set([0, 12])),
                 dict(TS=-2, TE=2, MaxSp=3, MRTSQ=tla_set([0, 40]))]
     else:
         cfgs = [dict(TS=0, TE=7, MaxSp=8, MRTSQ=tla_set([0, 2, 6, 16, 40])),
@@ -46,6 +66,7 @@ def c01(ctx):
         for r in res.exports:
             ctx.count_path("/".join(r["path"]))
             ctx.count_actions(r["path"], "IsiScan.")
+        _effective(ctx, res.exports, "mrts", ["x", "y"], "IsiScan[%s]" % res.constants.get("MRTSQ"))
         replay.run(ctx, "isi", res.exports)
     ctx.require_actions(["start", "adv1", "adv2", "both", "trim", "close"], "IsiScan.")
     import traces as _traces
@@ -80,6 +101,8 @@ def c02(ctx):
         for r in res.exports:
             ctx.count_path("/".join(r["path"]))
             ctx.count_actions(r["path"], "SpikeScan.")
+        if len(set(repr(r["mrts"]) for r in res.exports)) > 1:
+            _effective(ctx, res.exports, "mrts", ["x", "y1", "y2"], "SpikeScan[%s]" % res.constants.get("MRTSQ"))
         replay.run(ctx, "spike", res.exports)
     ctx.require_actions(["start", "adv1", "adv2", "both", "trim", "close"], "SpikeScan.")
     import traces as _traces
@@ -105,7 +128,7 @@ def _sync_cfgs(tier):
         return [dict(TS=0, TE=5, MaxSp=6, MRTSQ=tla_set([0, 24]), TauQ=tla_set([0, 6, 14])),
                 dict(TS=-2, TE=5, MaxSp=3, MRTSQ=tla_set([0, 30]), TauQ=tla_set([0, 4, 40]))]
     return [dict(TS=0, TE=6, MaxSp=7, MRTSQ=tla_set([0, 8, 12, 24]), TauQ=tla_set([0, 2, 4, 8, 16])),
-            dict(TS=-2, TE=6, MaxSp=3, MRTSQ=tla_set([0, 8, 12]), TauQ=tla_set([0, 2, 3, 6, 20, 100])),
+            dict(TS=-2, TE=6, MaxSp=3, MRTSQ=tla_set([0, 8, 24]), TauQ=tla_set([0, 2, 3, 6, 20, 100])),
             dict(TS=0, TE=9, MaxSp=3, MRTSQ=tla_set([0, 24]), TauQ=tla_set([0, 4, 6, 30]))]
 
 
@@ -122,6 +145,8 @@ def _run_sync(ctx, checkers, what):
         for r in res.exports:
             ctx.count_path("/".join(r["path"]))
             ctx.count_actions(r["path"], "SyncScan.")
+        for kwd in ("mrts", "mtau"):
+            _effective(ctx, res.exports, kwd, ["x", "c", "mp"], "SyncScan[%s %s]" % (res.constants.get("MRTSQ"), res.constants.get("TauQ")))
         for ck in checkers:
             replay.run(ctx, ck, res.exports)
     ctx.require_actions(["adv1", "adv2", "both", "frame", "empty"], "SyncScan.")
@@ -147,7 +172,7 @@ def c03(ctx):
     # the public routes of the two scans: the filter (per-spike indicator) and the list form of the profile,
     # with a threshold and a window bound that change coincidences
     q = ctx.tier == QUICK
-    _multi(ctx, dict(N=3, TE=5, MaxSp=2, ThrCodes="{1, 12}", MRTS4=24, TAU4=16, Sample=5 if q else 12), ["filter", "sync_profile", "sync"],
+    _multi(ctx, dict(N=3, TE=5, MaxSp=2, ThrCodes="{1, 12}", MRTS4=24, TAU4=0, Sample=5 if q else 12), ["filter", "sync_profile", "sync"],
            ["FilterEqualsProfile", "PooledEvents"], ["multi_abs", "filter_rel"],
            "filter / list forms with MRTS = 6 (window floor 1.5) and max_tau = 4: the indicator used for filtering agrees with the profile")
     _multi(ctx, dict(N=2, TE=6, MaxSp=3, ThrCodes="{1}", MRTS4=0, TAU4=8, IdxMode='"none"'), ["sync_profile", "sync", "filter"],
@@ -165,9 +190,9 @@ def c04(ctx):
     _run_sync(ctx, ["order"], "order / directionality scans = pairwise definition; swap negates")
     q = ctx.tier == QUICK
     dfns = ["order_profile", "order", "dir_matrix", "dir_values"]
-    _multi(ctx, dict(N=3, IdxMode='"all"', Sample=5 if q else 10), dfns, ["Antisymmetric", "SynfireFromMatrix", "PooledEvents"],
+    _multi(ctx, dict(N=3, IdxMode='"all"', Sample=5 if q else 10, TAU4=4), dfns, ["Antisymmetric", "SynfireFromMatrix", "PooledEvents"],
            ["multi_abs", "dir_rel"], "multivariate order / directionality: every ordered index selection")
-    _multi(ctx, dict(N=4, IdxMode='"all"', Sample=2 if q else 4, TAU4=8, MRTS4=12), dfns, ["Antisymmetric", "SynfireFromMatrix"],
+    _multi(ctx, dict(N=4, IdxMode='"all"', Sample=2 if q else 4, TAU4=0, MRTS4=24), dfns, ["Antisymmetric", "SynfireFromMatrix"],
            ["multi_abs", "dir_rel"], "N = 4")
     _multi(ctx, dict(N=3, TE=9, MaxSp=3, Sample=3 if q else 8, IdxMode='"pairs"'), dfns, [], ["multi_auto"],
            "MRTS='auto' with an index selection: matrix, values, order and synfire indicator use the same (whole-list) threshold")
@@ -229,7 +254,7 @@ def c08(ctx):
     q = ctx.tier == QUICK
     tfns = ["isi_profile", "spike_profile", "sync_profile", "order_profile", "isi_distance", "spike_distance", "sync",
             "order", "isi_matrix", "sync_matrix", "dir_matrix", "dir_values"]
-    _multi(ctx, dict(N=3, IdxMode='"none"', Sample=6 if q else 12, IvCodes="{0, 206}", MRTS4=12, TAU4=8), tfns, [],
+    _multi(ctx, dict(N=3, IdxMode='"none"', Sample=6 if q else 12, IvCodes="{0, 206}", MRTS4=12, TAU4=4), tfns, [],
            ["multi_transform"], "lists of trains under shift / scale / mirror (multivariate forms)")
     ctx.assumptions += ["integer shifts and scale factors on the spec side; the code is additionally run with dyadic factors 1/2, 1/4 and a shift of 1/2 (exact in floats)"]
     return ctx.finish(rule="every ordered pair of trains x keywords x {2 shifts, scale, 1/2, 1/4, shift 1/2, mirror}; "
@@ -450,19 +475,29 @@ MULTI_BASE = dict(TS=0, TE=4, MaxSp=2, N=3, MRTS4=0, TAU4=0, RIFlag="FALSE", Idx
 def _multi(ctx, cfg, fns, invs, checks, what, backends=("py", "shim"), chunk=300):
     c = dict(MULTI_BASE)
     c.update(cfg)
+    vacuous_ok = c.pop("_vacuous_ok", False)      # a setting that is a no-op on purpose (e.g. max_tau beyond the recording)
     only_bad = c.pop("FnFilter", None) == "bad"
     c["FnSet"] = "{" + ", ".join('"%s"' % f for f in fns) + "}"
     c = _neg(c)
-    res = run_tlc("Multi", c, invs + ["WellFormed", "Export"], workers=16, timeout=6000,
-                  seed=(ctx.seed or 1) if c.get("Sample") else None)
+    # a sampled pool in which the keyword setting cannot matter is re-drawn (deterministically: seed + 1000*k)
+    for attempt in range(4):
+        res = run_tlc("Multi", c, invs + ["WellFormed", "Export"], workers=16, timeout=6000,
+                      seed=((ctx.seed or 1) + 1000 * attempt) if c.get("Sample") else None)
+        if res.violated:
+            ctx.add_tlc(res, what, exhaustive=not c.get("Sample"))
+            return []
+        ex = res.exports
+        if only_bad:
+            ex = [r for r in ex if r["res"]["t"] == "error"]
+        else:
+            ex = [r for r in ex if r["res"]["t"] != "error"]
+        vac = [] if vacuous_ok else _multi_effective(ctx, ex, what)
+        if not vac or not c.get("Sample"):
+            break
+        ctx.notes["pools_redrawn"] = ctx.notes.get("pools_redrawn", 0) + 1
     ctx.add_tlc(res, what, exhaustive=not c.get("Sample"))
-    if res.violated:
-        return []
-    ex = res.exports
-    if only_bad:
-        ex = [r for r in ex if r["res"]["t"] == "error"]
-    else:
-        ex = [r for r in ex if r["res"]["t"] != "error"]
+    if vac:
+        ctx.notes.setdefault("vacuous_keywords", []).extend(vac)
     seen = set()
     for r in ex:
         key = (r["call"]["fn"], len(r["call"]["idx"]), r["call"]["iv"] != 0)
@@ -476,16 +511,50 @@ def _multi(ctx, cfg, fns, invs, checks, what, backends=("py", "shim"), chunk=300
     return ex
 
 
+SYNC_FNS = ("sync_profile", "order_profile", "sync", "order", "sync_matrix", "dir_matrix", "dir_values", "filter")
+
+
+def _multi_effective(ctx, ex, what):
+    """vacuity guard for the keyword setting of a Multi run: a non-zero MRTS / max_tau must change the result of
+    at least one of the exported calls (in the code, pure-Python backend) with respect to the keyword left out"""
+    from common import fr
+    import impl
+    import checkers_multi as cm
+    vac = []
+    if not ex:
+        return vac
+    impl.set_backend("py")
+    for kw in ("mrts", "mtau"):
+        if fr(ex[0][kw]) == 0:
+            continue
+        tried = diff = 0
+        import random
+        for r in random.Random(1).sample(ex, min(300, len(ex))):
+            if r["res"]["t"] == "error" or (kw == "mtau" and r["call"]["fn"] not in SYNC_FNS):
+                continue
+            sts = cm.trains_of(r)
+            s1, a = impl.call(cm.invoke, r, sts, "idx")
+            s0, b = impl.call(cm.invoke, dict(r, **{kw: [0, 1]}), sts, "idx")
+            tried += 1
+            if s1 == "ok" and s0 == "ok" and not cm.equal_results(cm.norm_result(r, a), cm.norm_result(r, b)):
+                diff += 1
+        note = ctx.notes.setdefault("effective_keyword_values", {})
+        note["Multi[%s]/%s=%s" % (what[:40], kw, fr(ex[0][kw]))] = {"calls_tried": tried, "result_changed": diff}
+        if tried >= 40 and diff == 0:
+            vac.append("%s=%s changes the result of none of %d sampled calls (%s)" % (kw, fr(ex[0][kw]), tried, what))
+    return vac
+
+
 def c05(ctx):
     """every scalar measure equals the average of its profile over the same interval"""
     fns = ["isi_distance", "spike_distance", "sync", "order"]
     q = ctx.tier == QUICK
     runs = [dict(N=3, TE=4, MaxSp=2, IvCodes="{0, 105, 208, 307}", Sample=0 if not q else 8),
-            dict(N=3, TE=4, MaxSp=2, IvCodes="{0, 206}", Sample=4 if q else 8, IdxMode='"all"', TAU4=8),
-            dict(N=2, TE=4, MaxSp=3, IvCodes="{0, 3, 204, 508, 8}", IdxMode='"none"', MRTS4=12, TAU4=8, RIFlag="TRUE"),
-            dict(N=4, TE=4, MaxSp=2, IvCodes="{0, 206}", Sample=4 if q else 7, MRTS4=8)]
+            dict(N=3, TE=4, MaxSp=2, IvCodes="{0, 206}", Sample=4 if q else 8, IdxMode='"all"', TAU4=4),
+            dict(N=2, TE=4, MaxSp=3, IvCodes="{0, 3, 204, 508, 8}", IdxMode='"none"', MRTS4=12, TAU4=4, RIFlag="TRUE"),
+            dict(N=4, TE=4, MaxSp=2, IvCodes="{0, 206}", Sample=4 if q else 7, MRTS4=24)]
     if not q:
-        runs += [dict(N=3, TS=-2, TE=3, MaxSp=2, IvCodes="{0, 109, 305}", Sample=9, MRTS4=12, TAU4=10, RIFlag="TRUE", IdxMode='"all"')]
+        runs += [dict(N=3, TS=-2, TE=3, MaxSp=2, IvCodes="{0, 109, 305}", Sample=9, MRTS4=12, TAU4=4, RIFlag="TRUE", IdxMode='"all"')]
     for r in runs:
         _multi(ctx, r, fns, ["RouteSEqRouteP"], ["multi_avg"], "scalar route = average of the profile route")
     ctx.assumptions += ["code-vs-code: the scalar returned by the distance function against avrg(interval) of the profile returned "
@@ -503,14 +572,14 @@ def c06(ctx):
            ["multi_abs", "multi_perm"], "multivariate profile = pointwise mean / pooled events; permutation invariant")
     _multi(ctx, dict(N=3, Sample=0 if not q else 9, IvCodes="{0, 206}"), mats, ["MatrixIsBivariate"],
            ["multi_abs", "multi_perm"], "matrices contain the bivariate values")
-    _multi(ctx, dict(N=4, Sample=4 if q else 6, MRTS4=12, TAU4=8, RIFlag="TRUE"), prof + mats,
+    _multi(ctx, dict(N=4, Sample=4 if q else 6, MRTS4=12, TAU4=4, RIFlag="TRUE"), prof + mats,
            ["PointwiseMean", "PooledEvents", "MatrixIsBivariate"], ["multi_abs", "multi_perm"],
            "N = 4 (tail branches of the adds, recursive halving of 6 pairs)")
-    _multi(ctx, dict(N=5, TE=4, MaxSp=2, Sample=2 if q else 3, MRTS4=12, TAU4=8, RIFlag="TRUE"),
+    _multi(ctx, dict(N=5, TE=4, MaxSp=2, Sample=2 if q else 3, MRTS4=24, TAU4=0, RIFlag="TRUE"),
            ["isi_profile", "spike_profile", "sync_profile", "isi_distance", "sync"],
            ["PointwiseMean", "PooledEvents"], ["multi_abs", "multi_perm"], "N = 5: ten pairs, uneven halving, keywords that matter")
     if not q:
-        _multi(ctx, dict(N=3, TS=-2, TE=3, MaxSp=3, Sample=8, MRTS4=10, TAU4=10), prof + mats,
+        _multi(ctx, dict(N=3, TS=-2, TE=3, MaxSp=3, Sample=8, MRTS4=24, TAU4=4), prof + mats,
                ["PointwiseMean", "PooledEvents", "MatrixIsBivariate"], ["multi_abs", "multi_perm"], "second origin, 3 spikes")
     # MRTS='auto': the threshold of a multivariate call is pooled over the whole list that is handed over
     # (also when indices select a part of it), so that it stays the mean / aggregate of the pair values
@@ -533,11 +602,11 @@ def c14(ctx):
            "order", "isi_matrix", "spike_matrix", "sync_matrix", "dir_matrix", "dir_values"]
     _multi(ctx, dict(N=3, IdxMode='"all"', Sample=5 if q else 10, IvCodes="{0, 206}"), fns, [], ["multi_forms", "multi_abs"],
            "every ordered index selection of size >= 2")
-    _multi(ctx, dict(N=4, IdxMode='"all"', Sample=2 if q else 4, MRTS4=12, TAU4=8, RIFlag="TRUE"), fns, [],
+    _multi(ctx, dict(N=4, IdxMode='"all"', Sample=2 if q else 4, MRTS4=12, TAU4=4, RIFlag="TRUE"), fns, [],
            ["multi_forms", "multi_abs"], "N = 4: 60 ordered selections")
-    _multi(ctx, dict(N=3, IdxMode='"all"', Sample=4 if q else 8, MRTS4=12, TAU4=8, RIFlag="TRUE", IvCodes="{0, 105}"), fns, [],
-           ["multi_forms", "multi_abs"], "keywords that matter (max_tau = 1, MRTS = 1.5, RI) through every form")
-    _multi(ctx, dict(N=5, IdxMode='"perms"', Sample=1 if q else 2, MRTS4=12), ["isi_profile", "sync_profile", "order_profile", "isi_distance"],
+    _multi(ctx, dict(N=3, IdxMode='"all"', Sample=4 if q else 8, MRTS4=24, TAU4=0, RIFlag="TRUE", IvCodes="{0, 105}"), fns, [],
+           ["multi_forms", "multi_abs"], "keywords that matter (MRTS = 6: window floor 1.5, RI) through every form")
+    _multi(ctx, dict(N=5, IdxMode='"perms"', Sample=1 if q else 2, MRTS4=24), ["isi_profile", "sync_profile", "order_profile", "isi_distance"],
            [], ["multi_forms", "multi_abs"], "N = 5: every ordering of the whole list as index selection (10 pairs, recursive halving)")
     ctx.assumptions += ["the expected value of f(list, indices=idx) is computed by the spec on the selected sub-list in the "
                         "given order; the forms are compared with each other on the code"]
@@ -550,11 +619,11 @@ def c17(ctx):
     q = ctx.tier == QUICK
     _multi(ctx, dict(N=3, ThrCodes="{1, 12, 11, 14, 34}", Sample=0 if not q else 9), ["filter"],
            ["FilterPartition", "FilterEqualsProfile"], ["multi_abs", "filter_rel"], "N = 3, thresholds 0, 1/2, 1, 1/4, 3/4")
-    _multi(ctx, dict(N=4, ThrCodes="{13, 23, 12, 16}", Sample=4 if q else 6, TAU4=8, MRTS4=12), ["filter"],
+    _multi(ctx, dict(N=4, ThrCodes="{13, 23, 12, 16}", Sample=4 if q else 6, TAU4=0, MRTS4=24), ["filter"],
            ["FilterPartition", "FilterEqualsProfile"], ["multi_abs", "filter_rel"], "N = 4, thresholds k/3 hit exactly")
-    _multi(ctx, dict(N=3, ThrCodes="{1, 12}", PoolMode='"deg"', TAU4=12), ["filter"],
+    _multi(ctx, dict(N=3, ThrCodes="{1, 12}", PoolMode='"deg"', TAU4=12, _vacuous_ok=True), ["filter"],
            ["FilterPartition", "FilterEqualsProfile"], ["multi_abs", "filter_rel"], "max_tau beyond half the recording")
-    _multi(ctx, dict(N=2, MaxSp=3, ThrCodes="{1, 12, 11}", TE=5), ["filter"],
+    _multi(ctx, dict(N=2, MaxSp=3, ThrCodes="{1, 12, 11}", TE=5, TAU4=4), ["filter"],
            ["FilterPartition", "FilterEqualsProfile"], ["multi_abs", "filter_rel"], "N = 2")
     # a longer recording with tight spikes: the automatic threshold (pooled over the whole list) changes coincidences
     _multi(ctx, dict(N=3, TE=9, MaxSp=3, ThrCodes="{1, 12}", Sample=8 if q else 20), ["filter"],
@@ -601,9 +670,9 @@ def c18(ctx):
     q = ctx.tier == QUICK
     runs = [dict(N=2, PoolMode='"deg"', IvCodes="{0, 105, 4}"),
             dict(N=3, PoolMode='"deg"', IvCodes="{0, 206}", Sample=0 if not q else 5),
-            dict(N=3, PoolMode='"deg"', MRTS4=12, TAU4=8, RIFlag="TRUE", Sample=0 if not q else 5),
+            dict(N=3, PoolMode='"deg"', MRTS4=12, TAU4=4, RIFlag="TRUE", Sample=0 if not q else 5),
             dict(N=4, PoolMode='"deg"', Sample=3 if q else 6, IdxMode='"none"'),
-            dict(N=3, PoolMode='"deg"', Sample=4 if q else 0, IdxMode='"all"', TAU4=8),
+            dict(N=3, PoolMode='"deg"', Sample=4 if q else 0, IdxMode='"all"', TAU4=4),
             dict(N=3, MaxSp=3, TE=5, Sample=6 if q else 12, IvCodes="{0, 307}", MRTS4=10, TAU4=0)]
     for r in runs:
         _multi(ctx, r, ALL_FNS, [], ["multi_wf"], "every entry point on lists of degenerate trains: well-formed result", chunk=200)
